@@ -4,7 +4,7 @@ import ast
 from .. import AnalysisError
 from ..model import fold_const
 from ..flow import show, walk_term
-from ..report import ob_ok, ob_fail
+from ..report import ob_ok, ob_fail, ob_undecided
 from .common import (is_call, method_call, node_attr, elem_of, strip_wrappers, guards_of, enclosing_loops, need, strip_sites)
 from . import tables
 
@@ -177,6 +177,22 @@ def ord_resolve_handover(repo, tier="quick"):
                       reason="the fragments of this level are used")) if ok4 else
      obs.append(ob_fail("PROV.level-index", fi, icall, construct="fragment dict = %s" % (show(arg) if arg else "<none>"), instance="dict",
                         reason="the fragment dictionary handed to instantiation is not the one of the current level")))
+    # each level's dictionary holds that level's definitions only: the level reader starts every level from an empty dictionary
+    rf = repo.function("resolve:MoleculeResolver.read_fragment_strings")
+    rcalls = rf.flow.calls_to("read_fragments:read_fragments", "read_fragments")
+    if not rcalls:
+        obs.append(ob_undecided("PROV.level-index", rf, construct="read_fragment_strings does not call read_fragments", instance="level-isolation",
+                                reason="cannot see how the per-level dictionaries are built"))
+    from .common import call_arg
+    for rc, rn, _ in rcalls:
+        a = call_arg(rc, 2, "fragment_dict")
+        t = rf.flow.canon(a, rn) if a is not None else None
+        fresh = t is None or t == ("const", None) or t == ("dict", ()) or (is_call(t, "dict") is not None and not is_call(t, "dict")[0] and not t[4])
+        (obs.append(ob_ok("PROV.level-index", rf, rc, construct="read_fragments(level string) into an empty dictionary", instance="level-isolation",
+                          reason="a fragment name defined on two levels means, on each level, that level's definition")) if fresh else
+         obs.append(ob_fail("PROV.level-index", rf, rc, construct="read_fragments(..., fragment_dict=%s)" % show(t)[:80], instance="level-isolation",
+                            reason="definitions of another level are carried into this level's dictionary; read_fragments keeps the entry that is "
+                                   "already there, so a name defined on both levels resolves to the wrong level's fragment")))
     # counter
     incs = [n for n in cfg.nodes if n.kind == "stmt" and isinstance(n.ast, ast.AugAssign) and ast.unparse(n.ast.target) == "self.resolution_counter"]
     stores = [n for n in cfg.nodes if n.kind == "stmt" and isinstance(n.ast, ast.Assign) and any(ast.unparse(t) == "self.resolution_counter" for t in n.ast.targets)]
